@@ -20,7 +20,7 @@ def run(ctx):
     res = vlib.tlc("C16-gen-tantivy", "Gen_Tantivy", cfg, timeout=3000)
     if res["violated"]:
         raise vlib.ToolError("Gen_Tantivy: the specification's token stream violates the tiling laws")
-    cases = vlib.cases_from(res["out"])
+    cases = vlib.nonempty(vlib.cases_from(res["out"]), "Gen_Tantivy")
     ctx.add_tlc(res, f"Gen_Tantivy: {len(cases)} (model, wsconst) pairs x {len(cases[0]['runs'])} texts; tiling laws hold for the expected streams")
     send = []
     for i, c in enumerate(cases):
